@@ -464,6 +464,30 @@ Section Covers.
           end
       end.
 
+    (* allOf of plain object schemas against a struct: every declared member of
+       every conjunct is a member of the struct, and conversely; a member is
+       required when some conjunct requires it.  Only for open structs without a
+       flattened member (the conjuncts' additionalProperties play no role then). *)
+    Definition allof_struct (nn : bool) (ps : list prop) (deny : bool) (L : list schema) : bool :=
+      negb deny
+      && match flat_map_value ps with Some None => true | _ => false end
+      && nodup_ustr (wire_names ps)
+      && match L with [] => false | _ => true end
+      && forallb (fun b =>
+           match b with
+           | SBool _ => false
+           | SObj ty _ _ _ _ _ _ _ _ _ _ _ props _ _ _ _ allo anyo oneo no ref _ _ =>
+               match ref, anyo, oneo, allo, no with
+               | None, None, None, None, None =>
+                   ty_is nn ty [TObject] && props_ok props (flat_map sch_required L) None ps
+               | _, _, _, _, _ => false
+               end
+           end) L
+      && forallb (fun p => match wire_name p with
+                           | None => true
+                           | Some w => existsb (fun b => has_key w (sch_props b)) L
+                           end) ps.
+
     Section Obj2.
       Variable ty : option (list itype).
       Variable fmt : option ustring.
@@ -534,6 +558,11 @@ Section Covers.
                             | None => leaf_ok ty fmt enum nv sv ik items mni mxi props req ap nn d
                             end
                         end
+                    | Some L, None =>
+                        match d with
+                        | DStruct _ _ ps deny => allof_struct nn ps deny L
+                        | _ => false
+                        end
                     | _, _ => false
                     end
                   end
@@ -543,6 +572,11 @@ Section Covers.
           end.
 
       Definition covers_obj (nn0 : bool) (tg : target) : bool :=
+        (* {"allOf":[b], ...other keywords} without "$ref": at least as strict as b *)
+        match allo, ref with
+        | Some [b], None => cov b nn0 tg
+        | _, _ => false
+        end ||
         match tg with
         | TProps ps deny =>
             match ref, anyo, oneo, allo, no with
